@@ -8,7 +8,7 @@ out = {
  "version": 1,
  "setup_cmd": "cd /verif/engine && GOFLAGS=-mod=mod GOPROXY=off GOSUMDB=off GOTOOLCHAIN=local go build -o ../bin/gosx ./cmd/gosx",
  "hooks": {"guard": "verif",
-           "enable": "harness files under /verif/harness/** carry //go:build verif and are injected as an overlay (go/packages Overlay for the engine, go test -overlay for native replays) with -tags=verif; /repo carries no hook code",
+           "enable": "harness files under /verif/harness/** carry //go:build verif and are injected as an overlay (go/packages Overlay for the engine, go test -overlay for native replays) with -tags=verif; /repo carries no hook code. For native replays of harnesses that stub callees of match() the go test overlay also replaces v2/classifier.go by a copy of the CURRENT file whose four call sites go through wrappers defaulting to the real callee (harness/v2/classifier/native_hooks.json; skipped when a call site is not found exactly once)",
            "baseline_off_cmd": "cd /repo && cp go.mod go.sum /tmp/ 2>/dev/null; (cd /repo && go test -vet=off -count=1 ./... ) && (cd /repo/v2 && go test -vet=off -count=1 ./...)",
            "source_commits": [], "add_only": True},
  "engines": [{"name": "gosx", "path": "/verif/engine",
